@@ -15,7 +15,7 @@ Lemma logs_wstep c s w s' :
   coh_inv c s -> cb_inv c s -> wr_inv c s -> wstep c s w = Some s' -> cb_inv c s' /\ wr_inv c s'.
 Proof.
   intros Hco Hcb Hwr H. apply wstep_sum in H.
-  destruct H as [t pc pc' Ew Ha Hts M1 M2 L1 L2 | t pc' Ew Ha Hq Hts Hlt Hp Hdq P1 P2 L1 L2 | t e Ew Ha Hts L1 L2];
+  destruct H as [t pc pc' Ew Ha Hts M1 M2 M3 L1 L2 | t pc' Ew Ha Hq Hts Hlt Hp Hdq P1 P2 L1 L2 | t e Ew Ha Hts L1 L2];
     unfold cb_inv, wr_inv in *; rewrite L1, L2; split.
   - eapply (log_move c past_cb is_done); try eassumption; try reflexivity; try (intros []; reflexivity).
   - eapply (log_move c wrote is_done_ok); try eassumption; try reflexivity; try (intros []; reflexivity).
@@ -171,7 +171,7 @@ Proof.
   assert (Hbusy : forall t pc, s_wk s w = WRun t pc -> forall e, s_dr s (wpool c w) <> DDone e).
   { intros t pc Ew e Hdd. specialize (Hd (wpool c w)). unfold dpool_ok in Hd. rewrite Hdd in Hd.
     destruct Hd as (_ & _ & Hi). rewrite all_idle_iff in Hi. rewrite (Hi w Hw eq_refl) in Ew. discriminate. }
-  destruct H as [t pc pc' Ew Ha Hts _ _ _ _ | t pc' Ew Ha Hq Hts Hlt Hp Hdq _ _ _ _ | t e Ew Ha Hts _ _].
+  destruct H as [t pc pc' Ew Ha Hts _ _ _ _ _ | t pc' Ew Ha Hq Hts Hlt Hp Hdq _ _ _ _ | t e Ew Ha Hts _ _].
   - (* move *)
     split; [|intros t0 Ht0; rewrite Hts; apply Hr; exact Ht0].
     intros p. destruct (Nat.eq_dec p (wpool c w)) as [->|Hne].
@@ -356,7 +356,7 @@ Definition wm (x : wst) : Z :=
   | WIdle => 0
   | WRun _ pc =>
       match pc with
-      | PCbIn => 12 | PCbOut => 11 | PCb => 10 | PCbUnOut _ => 9 | PCbUnIn _ => 8 | PTLock => 7
+      | PCbIn => 13 | PCbOut => 12 | PCb => 11 | PCbUnOut _ => 10 | PCbUnIn _ => 9 | POpen => 8 | PTLock => 7
       | PAcq => 6 | PSleep => 6 | PWrite _ => 5 | PRel _ _ => 4 | PTUn _ => 3 | PFin _ => 2
       end
   end%Z.
